@@ -5,7 +5,7 @@
 //! oracle over the header: every read of a non-constant property is covered by a connection.
 //! Third: reads of a property without NOTIFY are rejected.
 
-use super::c01::{eval_binding, expect_of, prepare_with, settle, walk_program, Prep, Prepared};
+use super::c01::{eval_binding, expect_of, prepare_full, settle, walk_program, Prep, Prepared};
 use super::finish;
 use crate::cfg;
 use crate::common::*;
@@ -108,7 +108,8 @@ pub fn check_coverage(header: &str, form: &Form) -> Result<usize, (String, Strin
         if !bname.starts_with(|c: char| c.is_ascii_uppercase()) || !f.body.iter().any(|l| l.trim() == "b0:") {
             continue;
         }
-        let setup = h.funcs.iter().find(|x| x.name == format!("setup{bname}"));
+        // (members of a grouped value are connected by the setup function of the group: setupT0Tfont for evalT0TfontBold)
+        let setup = h.funcs.iter().filter(|x| x.name.strip_prefix("setup").map(|n| !n.is_empty() && bname.starts_with(n) && bname[n.len()..].chars().next().map(|c| c.is_ascii_uppercase()).unwrap_or(true)).unwrap_or(false)).max_by_key(|x| x.name.len());
         let static_connects: Vec<(String, String)> = setup.map(|s| hdr::Header::connects(s)).unwrap_or_default().into_iter().map(|c| (c.sender, c.signal.rsplit("::").next().unwrap_or("").to_owned())).collect();
         let types = local_types(f);
         let body = cfg::parse(f).map_err(|e| ("unparsable-body".to_owned(), e))?;
@@ -189,7 +190,8 @@ pub fn build_case(ch: &mut Chooser, name: &str) -> Built {
         opts.max_expr_depth = 2;
         opts.max_stmt_depth = 1;
     }
-    let p: Box<Prepared> = match prepare_with(ch, name, nb, &opts, n_derived) {
+    let gadgets = ch.chance(1, 3);
+    let p: Box<Prepared> = match prepare_full(ch, name, nb, &opts, n_derived, gadgets) {
         Prep::Ok(p) => p,
         Prep::Skip(w) => return Built::Skip(w),
         Prep::Fail(f) => return Built::Fail(f),
@@ -242,6 +244,24 @@ pub fn build_case(ch: &mut Chooser, name: &str) -> Built {
     let mut fresh: BTreeSet<(usize, &'static str)> = BTreeSet::new();
     let mut leaf_after_repoint = 0u64;
     let mut through_local_or_ternary = ch.labels.contains("object-through-local") || ch.labels.contains("object-through-ternary");
+    let folded: Vec<usize> = (0..p.doc.bindings.len()).filter(|k| !p.dynamic.contains(k)).collect();
+    let mut first_value: BTreeMap<usize, String> = BTreeMap::new();
+    let mut stale_constant: Option<(usize, String, String)> = None;
+    let mut note_folded = |state: &[ObjState], stale: &mut Option<(usize, String, String)>| {
+        for k in &folded {
+            if let Ok((v, _)) = eval_binding(&p.doc.bindings[*k], state) {
+                let e = cxx::enc_value(&v, &names);
+                match first_value.get(k) {
+                    None => {
+                        first_value.insert(*k, e);
+                    }
+                    Some(f) if *f != e && stale.is_none() => *stale = Some((*k, f.clone(), e)),
+                    _ => {}
+                }
+            }
+        }
+    };
+    note_folded(&state, &mut stale_constant);
     for _ in 0..n_ops {
         let reads = reads_of(&state);
         let read_vec: Vec<(usize, &'static str)> = reads.iter().copied().collect();
@@ -311,6 +331,7 @@ pub fn build_case(ch: &mut Chooser, name: &str) -> Built {
                 } else if (what == "set") && old != v && fresh.remove(&(obj, prop)) {
                     leaf_after_repoint += 1;
                 }
+                note_folded(&state, &mut stale_constant);
                 let mut exp = exp;
                 for d in &p.derived {
                     exp.push((names[d.host].clone(), d.prop.to_owned(), cxx::enc_value(&state[d.host].props[d.prop], &names)));
@@ -322,6 +343,13 @@ pub fn build_case(ch: &mut Chooser, name: &str) -> Built {
                 state = before;
             }
         }
+    }
+    // a binding whose value differs between two states of the history cannot be a constant of the
+    // .ui: it must have become an eval function (stale otherwise)
+    if let Some((k, v0, v1)) = stale_constant {
+        let b = &p.doc.bindings[k];
+        let why = format!("binding `{}: …` of {} has no eval function (it is treated as a constant) but its source expression denotes {} in one state of the history and {} in another", b.prop, names[b.host], v0, v1);
+        return Built::Fail(Failure { key: "c02-state-dependent-binding-not-generated".into(), what: why.clone(), detail: json!({"qml": p.qml, "why": why, "header": header_text}) });
     }
     through_local_or_ternary &= steps.len() > 3;
     let nontrivial = (leaf_after_repoint > 0 || through_local_or_ternary).then(|| stable_hash(&(&p.qml, steps.iter().map(|s| s.desc.clone()).collect::<Vec<_>>())));
